@@ -17,8 +17,11 @@ import c05ref as R  # noqa: E402  (exact helpers: signs, rational orthogonal mat
 
 PROPS = ["TfelVerif.C03.Props"]
 SOLVERS = ["TFEL", "FSESANALYTICAL", "FSESJACOBI", "FSESQL", "FSESCUPPEN", "FSESHYBRID", "GTEQR", "HARARI"]
-# a residual at or above this value (relative to |A|) means a broken solver; measured maxima on the clean tree are
-# below 1e-7 for every solver and family (see evidence), so this never alarms on a healthy tree
+# a residual at or above this value (relative to |A|), or a non finite output, is reported as a violation of the
+# property for that (solver, dimension, family). On the tree of 2026-09-22 FSESJACOBI, FSESQL (after the
+# is_negligible fix) and GTEQR stay below 1e-13 on every family except extreme scaling for QL; the closed-form
+# solvers (TFEL default, FSESANALYTICAL, FSESCUPPEN, FSESHYBRID, HARARI) exceed it on (nearly) degenerate spectra
+# and overflow for |A| beyond ~1e50: genuine findings, reported with the tensor as replay.
 THRESHOLD = 1e-6
 
 HALF = Q2(Fraction(1, 2))
@@ -259,7 +262,8 @@ def residuals(ck, binary, cases):
 
 def run(ck):
     bins = ck.cxx_many([("c03trace", ["C03/trace.cxx", vlib.REPO + "/src/Exception/ContractViolation.cxx"]),
-                        ("c03resid", ["C03/residual.cxx", vlib.REPO + "/src/Exception/ContractViolation.cxx"])], opt="-O1")
+                        ("c03resid", ["C03/residual.cxx", vlib.REPO + "/src/Exception/ContractViolation.cxx"],
+                         ["-DNDEBUG"])], opt="-O1")
     p = ck.run([bins["c03trace"]], timeout=600)
     if p.returncode != 0:
         raise vlib.BuildError("tracer c03trace failed on the current tree (value dependent branch on a symbol outside "
@@ -319,6 +323,7 @@ def run(ck):
         "T1: g++ instantiating the solvers with verif::Sym performs the same scalar operations as with double; sym.hxx/glue.hxx/emit.py are correct",
         "exact field semantics: rounding, overflow, underflow not modelled; sqrt/cos/sin/atan2 uninterpreted, the laws used are explicit hypotheses of the theorems",
         "harness/C03/trace.cxx: tfel::math::abs/std::max/std::min recorded as nodes, std::fpclassify decided by the shadow value and recorded as a path condition, the default solver's eigenvalue routine (CubicRoots, C10) stubbed; intermediate quantities (theta,t,c,s,...) are recomputed in the harness with the solver's formulas and identified with the solver's own nodes by common subexpression elimination",
+        "the residual harness is compiled with -DNDEBUG (release behaviour): in a debug build the default solver aborts on an assert for some nearly triple-degenerate tensors (StensorComputeEigenVectors.hxx:391)",
         "PARTIAL: tolerances, finiteness and convergence are floating point facts: not proved, only measured by the residual report on the real code (threshold %g relative); QL sweeps, Cuppen, Gte, Harari and the is_negligible shortcuts are not traced" % THRESHOLD,
     ]
     return ck.finish({
